@@ -255,7 +255,7 @@ def prim_cases(draw, tier):
     return dict(kind=draw(st.sampled_from(["scale_bwd", "scale_fwd", "residual_split", "residual_split_input", "split_add", "split_op_add"])),
                 inner=draw(st.sampled_from(["linear", "gelu", "mul", "none"])), tau=draw(st.sampled_from([0.5, 1.0, 0.1, 3.0])),
                 factor=draw(st.sampled_from([0.5, 2.0, -1.5, 0.0, 3 ** -0.5])), dtype=draw(st.sampled_from(["float32", "float64"])),
-                seed=draw(st.integers(0, 10**6)), backend="aot_eager", h=draw(st.integers(2, 5)))
+                seed=draw(st.integers(0, 10**6)), backend="aot_eager", h=draw(st.integers(2, 5)), use=draw(st.sampled_from(["both", "both", "first", "second"])))
 
 
 def run_prim(c) -> CaseResult:
@@ -295,7 +295,10 @@ def run_prim(c) -> CaseResult:
         w = w0.clone().requires_grad_()
         outs = f(x, w)
         ups = [torch.randn(o.shape, generator=torch.Generator().manual_seed(c["seed"] + i), dtype=o.dtype) for i, o in enumerate(outs)]
-        gs = torch.autograd.grad(list(outs), [x, w], ups, allow_unused=True)
+        used = list(range(len(outs)))
+        if len(outs) == 2 and c.get("use") in ("first", "second"):
+            used = [0] if c["use"] == "first" else [1]   # only one output of the pair reaches the loss (layer-drop: out = skip)
+        gs = torch.autograd.grad([outs[i] for i in used], [x, w], [ups[i] for i in used], allow_unused=True)
         return [o.detach() for o in outs], gs
     o0, g0 = run(fn)
     try:
@@ -311,6 +314,8 @@ def run_prim(c) -> CaseResult:
         res.fail(f"C20.compile.grad:primitive:{c['kind']}", f"compiled region ending in {c['kind']} (inner={c['inner']}, tau={tau}, factor={a}): gradients differ from eager")
     res.nontrivial = True
     res.labels.append("primitive:" + c["kind"])
+    if c.get("use", "both") != "both" and c["kind"].startswith("residual_split"):
+        res.labels.append("one-output-unused")
     return res
 
 
@@ -366,7 +371,7 @@ CHECK = Check(
     parts=[Part("functions", run_fn, strategy=fn_cases, budget={"quick": 120, "thorough": 4000}),
            Part("modules", run_mod, strategy=mod_cases, budget={"quick": 50, "thorough": 1500}),
            Part("compositions", run_comp, strategy=comp_cases, budget={"quick": 16, "thorough": 200}),
-           Part("primitives", run_prim, strategy=prim_cases, budget={"quick": 60, "thorough": 3000}),
+           Part("primitives", run_prim, strategy=prim_cases, budget={"quick": 120, "thorough": 3000}),
            Part("leaf-tracer", run_leaf, strategy=leaf_cases, budget={"quick": 60, "thorough": 3000}),
            Part("fx", run_fx, strategy=fx_cases, budget={"quick": 200, "thorough": 8000})],
     rule=("functions: every public function with C01's shapes / hyper-parameters / constraints in float32, float64, bfloat16, eager vs "
